@@ -119,8 +119,10 @@ def commb_msg(rng, addr):
         mb, ac = C12.b60(rng, df)
     elif c < 0.8:
         mb, ac = C12.b44(rng), None
-    else:
+    elif c < 0.9:
         mb, ac = rng.getrandbits(56), None
+    else:
+        mb, ac = rng.choice((0, 0, 1, 1 << 55)), None      # an empty (all-zero MB) or almost empty reply is still "heard"
     hdr = rng.getrandbits(27)
     if ac is not None:
         hdr = (hdr & ~0x1FFF) | ac
